@@ -7,7 +7,7 @@ PROPS_OPS = "RotoV.Props.C01"        # per-operator theorems T1–T3 (over Gener
 PROPS_DCE = "RotoV.Props.C01Dce"     # T4: dead-code elimination preserves execution
 PROPS_LOWER = "RotoV.Props.C01Lower" # T5: Spec value = value of the lowering model's structured MIR (composed with C08's simulation)
 LOWER_EXTRA = ["RotoV.Model.C01Resolve", "RotoV.Model.C01MirRun", "RotoV.Lemmas.C01Agree", "RotoV.Lemmas.C01Shape",
-               "RotoV.Lemmas.C01MirOps", "RotoV.Lemmas.C01SpecOps", "RotoV.Model.TraceSpec", "RotoV.Model.LowerS", "RotoV.Lemmas.LowerS",
+               "RotoV.Lemmas.C01MirOps", "RotoV.Lemmas.C01SpecOps", "RotoV.Lemmas.C01MirComplete", "RotoV.Lemmas.C01ScalarCode", "RotoV.Model.TraceSpec", "RotoV.Model.LowerS", "RotoV.Lemmas.LowerS",
                "RotoV.Lemmas.LowerSim", "RotoV.Lemmas.LowerTotal", "RotoV.Lemmas.TraceSpec", "RotoV.Props.C08"]
 
 
